@@ -15,10 +15,13 @@ type c13Oracle struct {
 	// from a password (or one-time password) step alone although the account
 	// has a second factor
 	pwOnly map[int]string
+	// cookieOnly[browser] = the account this browser's session names only
+	// because a remember cookie said so (no handler has logged it in since)
+	cookieOnly map[int]string
 }
 
 func newC13Oracle(w *World) Oracle {
-	return &c13Oracle{authedOK: map[int]int{}, pwOnly: map[int]string{}}
+	return &c13Oracle{authedOK: map[int]int{}, pwOnly: map[int]string{}, cookieOnly: map[int]string{}}
 }
 
 func splitCSV(s string) []string {
@@ -57,6 +60,7 @@ func (c *c13Oracle) Check(w *World, o *Obs) []Violation {
 		if st.Kind == "drop_session" {
 			delete(c.authedOK, st.B)
 			delete(c.pwOnly, st.B)
+			delete(c.cookieOnly, st.B)
 		}
 		return nil
 	}
@@ -67,6 +71,20 @@ func (c *c13Oracle) Check(w *World, o *Obs) []Violation {
 	if pwOnly != uid {
 		pwOnly = ""
 	}
+	cookieOnly := c.cookieOnly[st.B]
+	if cookieOnly != uid {
+		cookieOnly = ""
+	}
+	defer func() {
+		after := o.uidAfter()
+		_, byHandler := w.loginPut(o)
+		if byHandler || after != c.cookieOnly[st.B] {
+			delete(c.cookieOnly, st.B)
+		}
+		if !byHandler && o.uidBefore() == "" && after != "" && o.SessAfter["halfauth"] == "true" {
+			c.cookieOnly[st.B] = after
+		}
+	}()
 	defer func() {
 		after := o.uidAfter()
 		if put, ok := w.loginPut(o); ok && (st.Kind == "login" || st.Kind == "otp_login") {
@@ -162,6 +180,10 @@ func (c *c13Oracle) Check(w *World, o *Obs) []Violation {
 		if pwOnly == pid && (before.TOTPSecretKey != after.TOTPSecretKey || before.SMSPhone != after.SMSPhone || before.RecoveryCodes != after.RecoveryCodes) {
 			out = append(out, viol("C13", "changed_by_password_step_only", st.Kind, o,
 				fmt.Sprintf("2FA settings of %s changed by a session that holds its identity from the password step alone (the second factor was never presented)", pid)))
+		}
+		if cookieOnly == pid && o.SessBefore["halfauth"] == "" && (before.TOTPSecretKey != after.TOTPSecretKey || before.SMSPhone != after.SMSPhone || before.RecoveryCodes != after.RecoveryCodes) {
+			out = append(out, viol("C13", "changed_by_cookie_session", st.Kind, o,
+				fmt.Sprintf("2FA settings of %s changed by a session that names it only through a remember cookie (no login has completed since; the half-auth mark is gone)", pid)))
 		}
 		if before.TOTPSecretKey != after.TOTPSecretKey {
 			if after.TOTPSecretKey != "" {
